@@ -231,9 +231,14 @@ def find_spdx_tag(text: str, pattern: re.Pattern) -> Iterator[str]:
         # To ensure we parse them correctly, if the line ends with the inverse
         # of the comment prefix, we strip that suffix. See #343 for a real
         # world example of a project doing this (LLVM).
+        #
+        # The frame is set off from the value by whitespace; a value that merely
+        # ends in the same characters ('c ... Eric', '# ... Team C#') is kept.
         suffix = prefix[::-1]
         if suffix and value.endswith(suffix):
-            value = value[: -len(suffix)]
+            stripped = value[: -len(suffix)]
+            if not stripped or stripped[-1].isspace():
+                value = stripped
 
         yield value.strip()
 
